@@ -1,6 +1,7 @@
 """Finite alphabets (DESIGN.md section 3.1): grid classes, spacing templates, shapes,
 boundary kinds and field pools.  Every enumeration here is deterministic; VERIF_SEED only
 permutes the pool of dyadic values, never the structure of an enumeration."""
+import functools
 import itertools
 import math
 import random
@@ -124,12 +125,17 @@ def grid_specs(tier="quick", classes=None, templates=None, nmax=None, shapes_ove
 
 # ------------------------------------------------------------------ value pools
 
+@functools.lru_cache(maxsize=4096)
+def _pool(seed, n):
+    vals = [(k + 8) / 16.0 for k in range(n)]
+    random.Random(1000003 * seed + 17).shuffle(vals)
+    return tuple(vals)
+
+
 def pool(seed=None, n=512):
     """Distinct dyadic values (k+8)/16, permuted by the seed."""
     seed = SEED if seed is None else seed
-    vals = [(k + 8) / 16.0 for k in range(n)]
-    random.Random(1000003 * seed + 17).shuffle(vals)
-    return vals
+    return _pool(seed, n)
 
 
 def generic_array(shape, seed=None, tag=0, signed=False):
